@@ -122,8 +122,8 @@ theorem opSetRelations_qkeep (run : ProbeRunner) (p : Path) {w : World} {fl : Li
     (hhas : ∀ (r : RelID), r ∈ rels → (targetOf w e.id r.comp).isSome = true)
     (hrows : w.entities.length + 1 < 2 ^ 32)
     {w' : World} (hok : opSetRelations run p e mapperIds rels w = .ok () w') : QKeep w w' := by
-  have hpre : preCheck p mapperIds rels w = .ok () w := by
-    rcases preCheck_cases p mapperIds rels w with h1 | ⟨k, h1⟩
+  have hpre : preCheck p.setRelCheck mapperIds rels w = .ok () w := by
+    rcases preCheck_cases p.setRelCheck mapperIds rels w with h1 | ⟨k, h1⟩
     · exact h1
     · simp [opSetRelations, bind, M.bind, h1] at hok
   simp only [opSetRelations, bind, M.bind, hpre] at hok
@@ -174,8 +174,8 @@ theorem opAdd_qkeep (run : ProbeRunner) (p : Path) {w : World} {fl : List Nat} (
     | true => have := h.freeEmpty oldT _ hT hf; omega
   obtain ⟨A, hA, i1, i2, i3, _⟩ := hS.tblArch oldT _ hT
   have hAe := arch_of_get hA
-  have hpre : preCheck p ids rels w = .ok () w := by
-    rcases preCheck_cases p ids rels w with h1 | ⟨k, h1⟩
+  have hpre : preCheck (p.addCheck ids) ids rels w = .ok () w := by
+    rcases preCheck_cases (p.addCheck ids) ids rels w with h1 | ⟨k, h1⟩
     · exact h1
     · cases p <;> simp [opAdd, bind, M.bind, M.get, M.assert, ha, h1] at hok
   have hemp : ids.isEmpty = false := by
